@@ -130,5 +130,13 @@ func getVars(term ast.Term, vars map[ast.Variable]bool) {
 	case ast.Eq:
 		ast.AddVars(t.Left, vars)
 		ast.AddVars(t.Right, vars)
+	case ast.TemporalLiteral:
+		// A positive temporal literal binds the variables of its atom and the
+		// variables of its interval annotation, like analysis assumes.
+		if a, ok := t.Literal.(ast.Atom); ok {
+			ast.AddVars(ast.TemporalAtom{Atom: a, Interval: t.Interval}, vars)
+		}
+	case ast.TemporalAtom:
+		ast.AddVars(t, vars)
 	}
 }
